@@ -110,12 +110,17 @@ pub proof fn lemma_quoted_body_noesc(lit: Seq<char>, rest: Seq<char>, st: St)
     }
 }
 
+/// scanning "lit" rest  from st  ==  scanning rest from st (only `prev` remembers the closing quote)
+pub open spec fn quoted_literal_ignored(lit: Seq<char>, rest: Seq<char>, st: St) -> bool {
+    scan(sq('"') + lit + sq('"') + rest, st) == scan(rest, St { prev: '"', ..st })
+}
+
 /// a complete quoted literal "lit" (lit without `"`, `\`, `_`) is skipped: only `prev` remembers it
 pub proof fn lemma_quoted_ignored_noesc(lit: Seq<char>, rest: Seq<char>, st: St)
     requires !st.quoted, !st.escaped, no_char(lit, '"'), no_esc(lit),
     ensures
         //# C10.quoted_ignored_noesc
-        scan(sq('"') + lit + sq('"') + rest, st) == scan(rest, St { prev: '"', ..st }),
+        quoted_literal_ignored(lit, rest, st),
 {
     let s = sq('"') + lit + sq('"') + rest;
     assert(s =~= sq('"') + (lit + (sq('"') + rest)));
@@ -132,7 +137,7 @@ pub proof fn lemma_quoted_ignored(lit: Seq<char>, rest: Seq<char>, st: St)
     requires !st.quoted, !st.escaped, no_char(lit, '"'),
     ensures
         //# C10.quoted_ignored
-        scan(sq('"') + lit + sq('"') + rest, st) == scan(rest, St { prev: '"', ..st }),
+        quoted_literal_ignored(lit, rest, st),
 {
     if no_esc(lit) { lemma_quoted_ignored_noesc(lit, rest, st); }
 }
@@ -519,6 +524,133 @@ pub proof fn lemma_scan_classify(s: Seq<char>, st: St, g: bool)
     }
 }
 
+
+/// Why lemma_quoted_ignored cannot be proved: the automaton (= the code, by C10.scan_automaton) reads "x_"dd as Other,
+/// i.e. this instance of the property is FALSE for the code (finding formats_1), it is not a proof gap.
+pub proof fn counterexample_quoted_underscore()
+    ensures
+        scan(seq!['"', 'x', '_', '"', 'd', 'd'], init()) == CellFormat::Other,
+        scan(seq!['d', 'd'], St { prev: '"', ..init() }) == CellFormat::DateTime,
+        !quoted_literal_ignored(seq!['x', '_'], seq!['d', 'd'], init()),
+{
+    let s = seq!['"', 'x', '_', '"', 'd', 'd'];
+    let e = Seq::<char>::empty();
+    assert(s =~= sq('"') + seq!['x', '_', '"', 'd', 'd']);
+    lemma_scan_cons('"', seq!['x', '_', '"', 'd', 'd'], init());
+    let s1 = St { quoted: true, prev: '"', ..init() };
+    assert(seq!['x', '_', '"', 'd', 'd'] =~= sq('x') + seq!['_', '"', 'd', 'd']);
+    lemma_scan_cons('x', seq!['_', '"', 'd', 'd'], s1);
+    let s2 = St { prev: 'x', ..s1 };
+    assert(seq!['_', '"', 'd', 'd'] =~= sq('_') + seq!['"', 'd', 'd']);
+    lemma_scan_cons('_', seq!['"', 'd', 'd'], s2);
+    let s3 = St { escaped: true, prev: '_', ..s2 };
+    assert(seq!['"', 'd', 'd'] =~= sq('"') + seq!['d', 'd']);
+    lemma_scan_cons('"', seq!['d', 'd'], s3);
+    let s4 = St { escaped: false, prev: '"', ..s3 };
+    assert(s4.quoted);
+    assert(seq!['d', 'd'] =~= sq('d') + seq!['d']);
+    lemma_scan_cons('d', seq!['d'], s4);
+    let s5 = St { prev: 'd', ..s4 };
+    assert(seq!['d'] =~= sq('d') + e);
+    lemma_scan_cons('d', e, s5);
+    lemma_scan_cons('d', seq!['d'], St { prev: '"', ..init() });
+    assert(s =~= sq('"') + seq!['x', '_'] + sq('"') + seq!['d', 'd']);
+}
+
+// ---- witnesses: the side conditions are satisfiable and the declarative spec says what the property says -----------
+pub proof fn witness_elapsed_bracket()
+    ensures
+        wf(seq!['[', 'h', ']', ':', 'm'], false),
+        classify(seq!['[', 'h', ']', ':', 'm'], false) == CellFormat::TimeDelta,
+        scan(seq!['[', 'h', ']', ':', 'm'], init()) == CellFormat::TimeDelta,
+{
+    let s = seq!['[', 'h', ']', ':', 'm'];
+    let r1 = s.skip(1);
+    reveal_with_fuel(first_idx, 3);
+    assert(r1[0] == 'h' && r1[1] == ']');
+    assert(r1.drop_first()[0] == ']');
+    assert(first_idx(r1, ']') == 1);
+    let c = s.subrange(1, 2);
+    assert(c.len() == 1 && c[0] == 'h');
+    assert(clean(c));
+    assert(elapsed(c));
+    assert(tok(s, false) == Tok::Elapsed);
+    lemma_scan_classify(s, init(), false);
+}
+pub proof fn witness_quoted_then_date()
+    ensures
+        wf(seq!['"', 'd', '"', 'y'], false),
+        classify(seq!['"', 'd', '"', 'y'], false) == CellFormat::DateTime,
+        wf(seq!['"', 'd', '"', '0'], false),
+        classify(seq!['"', 'd', '"', '0'], false) == CellFormat::Other,
+{
+    reveal_with_fuel(first_idx, 3);
+    let s = seq!['"', 'd', '"', 'y'];
+    let r1 = s.skip(1);
+    assert(r1[0] == 'd' && r1[1] == '"');
+    assert(r1.drop_first()[0] == '"');
+    assert(first_idx(r1, '"') == 1);
+    let c = s.subrange(1, 2);
+    assert(c.len() == 1 && c[0] == 'd');
+    assert(no_esc(c));
+    assert(tok(s, false) == Tok::Skip(3));
+    let r3 = s.skip(3);
+    assert(r3.len() == 1 && r3[0] == 'y');
+    assert(tok(r3, false) == Tok::Date);
+    assert(classify(r3, false) == CellFormat::DateTime);
+    assert(wf(r3, false));
+
+    let s2 = seq!['"', 'd', '"', '0'];
+    let q1 = s2.skip(1);
+    assert(q1[0] == 'd' && q1[1] == '"');
+    assert(q1.drop_first()[0] == '"');
+    assert(first_idx(q1, '"') == 1);
+    let c2 = s2.subrange(1, 2);
+    assert(c2.len() == 1 && c2[0] == 'd');
+    assert(no_esc(c2));
+    assert(tok(s2, false) == Tok::Skip(3));
+    let q3 = s2.skip(3);
+    assert(q3.len() == 1 && q3[0] == '0');
+    assert(!general_at(q3));
+    assert(tok(q3, false) == Tok::Skip(1));
+    assert(q3.skip(1).len() == 0);
+    assert(classify(q3.skip(1), false) == CellFormat::Other);
+    assert(wf(q3.skip(1), false));
+    assert(classify(q3, false) == CellFormat::Other);
+    assert(wf(q3, false));
+}
+pub proof fn witness_second_section()
+    ensures
+        wf(seq!['0', ';', 'd'], false),
+        classify(seq!['0', ';', 'd'], false) == CellFormat::Other,
+{
+    let s = seq!['0', ';', 'd'];
+    assert(!general_at(s));
+    assert(tok(s, false) == Tok::Skip(1));
+    let r = s.skip(1);
+    assert(r[0] == ';');
+    assert(tok(r, false) == Tok::End);
+    assert(classify(r, false) == CellFormat::Other);
+    assert(wf(r, false));
+}
+pub proof fn witness_lemmas()
+{
+    let e = Seq::<char>::empty();
+    lemma_quoted_ignored_noesc(seq!['d'], e, init());
+    lemma_quoted_unterminated_noesc(seq!['d'], init());
+    lemma_escape_ignored('\\', 'd', e, init());
+    lemma_bracket(seq!['R', 'e', 'd'], e, init());
+    lemma_section_end(e, seq!['d'], init());
+    lemma_date_letter('Y', e, init());
+    lemma_other_char('0', e, init(), false);
+    let am = seq!['A', 'M', '/', 'P', 'M'];
+    assert(ampm_at(am));
+    lemma_ampm(am, init());
+    let g = seq!['G', 'e', 'n', 'e', 'r', 'a', 'l'];
+    assert(general_at(g));
+    lemma_general(g, init());
+}
+
 // TRUSTED: std doc of char::eq_ignore_ascii_case: "Equivalent to to_ascii_lowercase(a) == to_ascii_lowercase(b)";
 // to_ascii_lowercase maps 'A'..='Z' to 'a'..='z' and leaves every other char unchanged.
 pub assume_specification[ char::eq_ignore_ascii_case ](a: &char, b: &char) -> (r: bool)
@@ -549,6 +681,111 @@ pub assume_specification[ char::eq_ignore_ascii_case ](a: &char, b: &char) -> (r
             assert(format@.skip(i).drop_first() =~= format@.skip(i + 1));
             assert(format@.skip(i)[0] == s);
         }
+//@@ end
+
+
+// ---------------------------------------------------------------------------------------------
+// format_excel_*: a number becomes DateTime exactly when its format is a date/time format
+// ---------------------------------------------------------------------------------------------
+//@@ item src/lib.rs enum CellErrorType keep_attrs
+//@@ item src/datatype.rs enum ExcelDateTimeType keep_attrs
+//@@ item src/datatype.rs struct ExcelDateTime keep_attrs
+//@@ item src/datatype.rs enum Data keep_attrs
+//@@ item src/datatype.rs enum DataRef keep_attrs
+
+// the fields of ExcelDateTime are private: observe them through closed spec functions
+pub closed spec fn edt_parts(e: ExcelDateTime) -> (f64, ExcelDateTimeType, bool) { (e.value, e.datetime_type, e.is_1904) }
+pub closed spec fn edt_mk(value: f64, datetime_type: ExcelDateTimeType, is_1904: bool) -> ExcelDateTime {
+    ExcelDateTime { value, datetime_type, is_1904 }
+}
+pub proof fn lemma_edt_mk_parts(value: f64, datetime_type: ExcelDateTimeType, is_1904: bool, e: ExcelDateTime)
+    ensures
+        edt_parts(edt_mk(value, datetime_type, is_1904)) == (value, datetime_type, is_1904),
+        e == edt_mk(edt_parts(e).0, edt_parts(e).1, edt_parts(e).2),
+{}
+
+//@@ impl src/datatype.rs ExcelDateTime
+//@@ fn src/datatype.rs ExcelDateTime::new props=C10 ret=r
+//@@ sig
+    ensures
+        //# C10.edt_new_fields
+        edt_parts(r) == (value, datetime_type, is_1904),
+//@@ end
+//@@ endimpl
+
+/// the date flavour a format class asks for (None: stays a plain number)
+pub open spec fn flavour(format: Option<&CellFormat>) -> Option<ExcelDateTimeType> {
+    match format {
+        Some(CellFormat::DateTime) => Some(ExcelDateTimeType::DateTime),
+        Some(CellFormat::TimeDelta) => Some(ExcelDateTimeType::TimeDelta),
+        _ => None,
+    }
+}
+
+// Verus leaves the exec cast `i64 as f64` unspecified, so the serial value of the i64 variant is discharged by the
+// complete Kani harness formats::format_excel_i64_complete (bit comparison); here: shape, flavour, date system.
+//@@ fn src/formats.rs format_excel_i64 props=C10 ret=r
+//@@ sig
+    ensures
+        //# C10.i64_plain_when_not_date_format
+        flavour(format) is None ==> r == Data::Int(value),
+        //# C10.i64_datetime_iff_date_format
+        flavour(format) is Some <==> r is DateTime,
+        //# C10.i64_flavour_and_date_system
+        flavour(format) matches Some(ty) ==> edt_parts(r->DateTime_0).1 == ty && edt_parts(r->DateTime_0).2 == is_1904,
+//@@ end
+
+//@@ fn src/formats.rs format_excel_f64_ref props=C10 ret=r
+//@@ sig
+    ensures
+        //# C10.f64_plain_when_not_date_format
+        flavour(format) is None ==> r == DataRef::<'static>::Float(value),
+        //# C10.f64_datetime_iff_date_format
+        flavour(format) matches Some(ty) ==> r == DataRef::<'static>::DateTime(edt_mk(value, ty, is_1904)),
+//@@ end
+
+/// DataRef -> Data keeps the variant and the payload (SharedString(&str) becomes an owned String)
+pub open spec fn owned(v: DataRef) -> Data
+    recommends !(v is SharedString)
+{
+    match v {
+        DataRef::Int(x) => Data::Int(x),
+        DataRef::Float(x) => Data::Float(x),
+        DataRef::String(x) => Data::String(x),
+        DataRef::SharedString(x) => arbitrary(),
+        DataRef::Bool(x) => Data::Bool(x),
+        DataRef::DateTime(x) => Data::DateTime(x),
+        DataRef::DateTimeIso(x) => Data::DateTimeIso(x),
+        DataRef::DurationIso(x) => Data::DurationIso(x),
+        DataRef::Error(x) => Data::Error(x),
+        DataRef::Empty => Data::Empty,
+    }
+}
+// vstd attaches `obeys_from_spec() ==> r == from_spec(v)` to every From impl. vstd has no spec for
+// `<String as From<&str>>::from` (the SharedString arm), so this impl does not claim a from_spec; its contract is the
+// explicit ensures below (callers of `.into()` see them through call_ensures).
+impl<'a> vstd::std_specs::convert::FromSpecImpl<DataRef<'a>> for Data {
+    open spec fn obeys_from_spec() -> bool { false }
+    open spec fn from_spec(v: DataRef<'a>) -> Data { arbitrary() }
+}
+//@@ impl src/datatype.rs "From<DataRef<'a>> for Data"
+//@@ fn src/datatype.rs "From<DataRef<'a>> for Data::from" props=C10 ret=r
+//@@ sig
+    ensures
+        //# C10.into_owned_keeps_variant_and_payload
+        !(value is SharedString) ==> r == owned(value),
+        //# C10.into_owned_shared_string
+        value is SharedString ==> r is String,
+//@@ end
+//@@ endimpl
+
+//@@ fn src/formats.rs format_excel_f64 props=C10 ret=r
+//@@ sig
+    ensures
+        //# C10.f64_owned_plain_when_not_date_format
+        flavour(format) is None ==> r == Data::Float(value),
+        //# C10.f64_owned_datetime_iff_date_format
+        flavour(format) matches Some(ty) ==> r == Data::DateTime(edt_mk(value, ty, is_1904)),
 //@@ end
 
 } // verus!
